@@ -29,3 +29,42 @@ package bmqsim
 //@   loop 2: modifies nothing
 //@   loop 2: invariant cur: fresh(curState)
 //@   loop 2: invariant apart: forall k int :: 0 <= k && k < i ==> arr(curState) != arr(sim.Outputs[k].Vector)
+
+// ---- layering: a new matrix is started whenever a qubit is used again --------------------------------------------
+
+// argument e of line l names a qubit / the index of that qubit
+//@ spec isQ(sim *BmQSimulator, l *bmline.BasmLine, e int) bool := haskey(sim.qbitsNum, l.Elements[e].GetValue())
+//@ spec qOf(sim *BmQSimulator, l *bmline.BasmLine, e int) int := sim.qbitsNum[l.Elements[e].GetValue()]
+
+// no qubit is named twice among the arguments of the lines of one layer
+//@ pred layerOK(sim *BmQSimulator, op []*bmline.BasmLine) := forall a int, b int :: 0 <= a && a < len(op) && 0 <= b && b < len(op) ==>
+//@        (forall e int, f int :: 0 <= e && e < len(op[a].Elements) && 0 <= f && f < len(op[b].Elements) && (a != b || e != f) &&
+//@             isQ(sim, op[a], e) && isQ(sim, op[b], f) ==> qOf(sim, op[a], e) != qOf(sim, op[b], f))
+
+// The matrix of one layer (float32 tensor products and permutations: not verified); it relies on the layer being
+// well formed, which the layering below is proved to guarantee at every call.
+//@ func (sim *BmQSimulator) BmMatrixFromOperation(op []*bmline.BasmLine) (*bmmatrix.BmMatrixSquareComplex, error)
+//@   requires layer: layerOK(sim, op)
+//@   assigns nothing
+//@   trusted
+
+//@ func red(s string) string
+//@   pure
+//@   trusted
+
+//@ func (sim *BmQSimulator) QasmToBmMatrices(qasm *bmline.BasmBody) ([]*bmmatrix.BmMatrixSquareComplex, error)
+//@   requires sim != nil && qasm != nil && sim.qbitsNum != nil
+//@   loop 2: modifies curQBits[*]
+//@   loop 2: invariant idx: 0 <= i && i <= len(qasm.Lines) && len(curOp) <= i
+//@   loop 2: invariant segment: forall k int :: i - len(curOp) <= k && k < i ==> qasm.Lines[k] == curOp[k - (i - len(curOp))]
+//@   loop 2: invariant own: (cap(curOp) == 0 || freshl(curOp)) && (cap(result) == 0 || freshl(result)) && (curQBits == pre(curQBits) || freshl(curQBits))
+//@   loop 2: invariant covered: forall a int :: 0 <= a && a < len(curOp) ==> (forall e int :: 0 <= e && e < len(curOp[a].Elements) && isQ(sim, curOp[a], e) ==> haskey(curQBits, qOf(sim, curOp[a], e)))
+//@   loop 2: invariant layer: layerOK(sim, curOp)
+//@   loop 3: modifies curQBits[*]
+//@   loop 3: invariant going: !nextOp && curQBits == pre(curQBits)
+//@   loop 3: invariant covered: forall a int :: 0 <= a && a < len(curOp) ==> (forall e int :: 0 <= e && e < len(curOp[a].Elements) && isQ(sim, curOp[a], e) ==> haskey(curQBits, qOf(sim, curOp[a], e)))
+//@   loop 3: invariant mine: forall e int :: 0 <= e && e < $i && isQ(sim, line, e) ==> haskey(curQBits, qOf(sim, line, e))
+//@   loop 3: invariant apart: forall e int :: 0 <= e && e < $i && isQ(sim, line, e) ==>
+//@             (forall a int :: 0 <= a && a < len(curOp) ==> (forall f int :: 0 <= f && f < len(curOp[a].Elements) && isQ(sim, curOp[a], f) ==> qOf(sim, curOp[a], f) != qOf(sim, line, e)))
+//@   loop 3: invariant distinct: forall e int, f int :: 0 <= e && e < f && f < $i && isQ(sim, line, e) && isQ(sim, line, f) ==> qOf(sim, line, e) != qOf(sim, line, f)
+//@   frameonly
